@@ -6,6 +6,9 @@
 
 /* ---- live-object counters (resource balance, C17) ---- */
 extern int g_type_live, g_comm_live, g_info_live, g_file_live;
+extern int g_type_next; extern long long g_tsize[32];
+/* a value produced by a datatype constructor of the model (or MPI_BYTE etc.): see mpi_model.c */
+#define VT_IS_DERIVED(t) ((unsigned long)(t) >= 0x100040UL && (unsigned long)(t) < 0x100000UL + 64UL * 32 && ((unsigned long)(t) - 0x100000UL) % 64UL == 0)
 
 /* ---- collective trace (C08) ---- */
 #define G_COLL_MAX 24
